@@ -5,9 +5,11 @@ package vc
 
 import (
 	"fmt"
+	"os"
 	"sort"
 	"strconv"
 	"strings"
+	"sync"
 )
 
 type Sort int
@@ -57,9 +59,13 @@ type Ctx struct {
 	// Distinct groups: names of Int constants that are pairwise distinct (string literals, type ids).
 	distinct map[string][]string
 	// Facts are ground facts (e.g. impl_I(tid_T)) added to a query when all their symbols occur in it.
-	Facts   []*Term
-	factKey map[string]bool
-	BaseTop map[string]*Term
+	Facts    []*Term
+	factKey  map[string]bool
+	BaseTop  map[string]*Term
+	symCache map[*Term]map[string]bool
+	mu       sync.Mutex
+	// OnlyDefs, when non-nil, restricts the definitional facts printed by Script (used for sliced queries)
+	OnlyDefs map[*Term]bool
 }
 
 // AddFact registers a ground fact once.
@@ -796,8 +802,18 @@ func (c *Ctx) Script(assumptions []*Term, goal *Term, getValues []*Term, header 
 			sb.WriteString("(assert (> " + n + " 0))\n")
 		}
 	}
+	roots := append(append([]*Term{}, defs...), assumptions...)
+	if goal != nil {
+		roots = append(roots, goal)
+	}
+	sp := newSharePrinter(roots)
+	emit := func(prefix string, t *Term, suffix string) {
+		body := sp.render(t)
+		sb.WriteString(sp.flush())
+		sb.WriteString(prefix + body + suffix)
+	}
 	for _, d := range defs {
-		sb.WriteString("(assert " + d.String() + ")\n")
+		emit("(assert ", d, ")\n")
 	}
 	for _, f := range c.Facts {
 		fs := map[string]bool{}
@@ -817,10 +833,10 @@ func (c *Ctx) Script(assumptions []*Term, goal *Term, getValues []*Term, header 
 		if a.IsTrue() {
 			continue
 		}
-		sb.WriteString("(assert " + a.String() + ")\n")
+		emit("(assert ", a, ")\n")
 	}
 	if goal != nil {
-		sb.WriteString("(assert (not " + goal.String() + "))\n")
+		emit("(assert (not ", goal, "))\n")
 	}
 	sb.WriteString("(check-sat)\n")
 	if len(getValues) > 0 {
@@ -834,4 +850,321 @@ func (c *Ctx) Script(assumptions []*Term, goal *Term, getValues []*Term, header 
 		sb.WriteString("))\n")
 	}
 	return sb.String()
+}
+
+// symsOf returns the uninterpreted symbols of t (memoised per term).
+func (c *Ctx) symsOf(t *Term) map[string]bool {
+	if c.symCache == nil {
+		c.symCache = map[*Term]map[string]bool{}
+	}
+	if m, ok := c.symCache[t]; ok {
+		return m
+	}
+	m := map[string]bool{}
+	seen := map[*Term]bool{}
+	var walk func(t *Term)
+	walk = func(t *Term) {
+		if seen[t] {
+			return
+		}
+		seen[t] = true
+		if t.Op == "var" || t.Op == "app" {
+			m[t.Name] = true
+		}
+		for _, a := range t.Args {
+			walk(a)
+		}
+	}
+	walk(t)
+	c.symCache[t] = m
+	return m
+}
+
+// Slice selects the assumptions and definitions relevant to the goal by a bounded symbol-reachability
+// closure. Dropping assumptions is sound (the query only gets weaker); a sliced query that is not unsat
+// is retried with the full set.
+func (c *Ctx) Slice(assumptions []*Term, goal *Term, rounds int) ([]*Term, []*Term) {
+	c.mu.Lock()
+	defer c.mu.Unlock()
+	all := append(append([]*Term{}, assumptions...), c.Defs...)
+	count := map[string]int{}
+	for _, a := range all {
+		for s := range c.symsOf(a) {
+			count[s]++
+		}
+	}
+	limit := len(all) / 6
+	if limit < 12 {
+		limit = 12
+	}
+	ubiq := func(s string) bool { return count[s] > limit }
+	rel := map[string]bool{}
+	for s := range c.symsOf(goal) {
+		rel[s] = true
+	}
+	taken := make([]bool, len(all))
+	for r := 0; r < rounds; r++ {
+		added := false
+		var newSyms []string
+		for i, a := range all {
+			if taken[i] {
+				continue
+			}
+			hit := false
+			for s := range c.symsOf(a) {
+				if rel[s] && !ubiq(s) {
+					hit = true
+					break
+				}
+			}
+			if hit {
+				taken[i] = true
+				added = true
+				for s := range c.symsOf(a) {
+					newSyms = append(newSyms, s)
+				}
+			}
+		}
+		for _, s := range newSyms {
+			rel[s] = true
+		}
+		if !added {
+			break
+		}
+	}
+	var out, defs []*Term
+	for i, a := range assumptions {
+		if taken[i] {
+			out = append(out, a)
+		}
+	}
+	for i, d := range c.Defs {
+		if taken[len(assumptions)+i] {
+			defs = append(defs, d)
+		}
+	}
+	return out, defs
+}
+
+// ScriptSliced renders a query with an explicit set of definitional facts (no transitive closure).
+func (c *Ctx) ScriptSliced(assumptions, defs []*Term, goal *Term, header string) string {
+	c.mu.Lock()
+	defer c.mu.Unlock()
+	all := append(append([]*Term{}, assumptions...), defs...)
+	if goal != nil {
+		all = append(all, goal)
+	}
+	syms := map[string]bool{}
+	for _, t := range all {
+		for s := range c.symsOf(t) {
+			syms[s] = true
+		}
+	}
+	var sb strings.Builder
+	sb.WriteString(header)
+	names := make([]string, 0, len(syms))
+	for n := range syms {
+		names = append(names, n)
+	}
+	sort.Strings(names)
+	for _, n := range names {
+		d := c.decls[n]
+		if d == nil {
+			continue
+		}
+		sb.WriteString("(declare-fun " + quoteSym(n) + " (")
+		for i, a := range d.Args {
+			if i > 0 {
+				sb.WriteByte(' ')
+			}
+			sb.WriteString(a.String())
+		}
+		sb.WriteString(") " + d.Res.String() + ")\n")
+	}
+	groups := make([]string, 0, len(c.distinct))
+	for g := range c.distinct {
+		groups = append(groups, g)
+	}
+	sort.Strings(groups)
+	for _, g := range groups {
+		var in []string
+		for _, n := range c.distinct[g] {
+			if syms[n] {
+				in = append(in, quoteSym(n))
+			}
+		}
+		if len(in) > 1 {
+			sb.WriteString("(assert (distinct " + strings.Join(in, " ") + "))\n")
+		}
+		for _, n := range in {
+			sb.WriteString("(assert (> " + n + " 0))\n")
+		}
+	}
+	for _, f := range c.Facts {
+		ok := true
+		for n := range c.symsOf(f) {
+			if !syms[n] {
+				ok = false
+				break
+			}
+		}
+		if ok {
+			sb.WriteString("(assert " + f.String() + ")\n")
+		}
+	}
+	roots := append(append([]*Term{}, defs...), assumptions...)
+	roots = append(roots, goal)
+	sp := newSharePrinter(roots)
+	emit := func(prefix string, t *Term, suffix string) {
+		body := sp.render(t)
+		sb.WriteString(sp.flush())
+		sb.WriteString(prefix + body + suffix)
+	}
+	for _, d := range defs {
+		emit("(assert ", d, ")\n")
+	}
+	for _, a := range assumptions {
+		if !a.IsTrue() {
+			emit("(assert ", a, ")\n")
+		}
+	}
+	emit("(assert (not ", goal, "))\n")
+	sb.WriteString("(check-sat)\n")
+	return sb.String()
+}
+
+// sharePrinter prints a set of terms as a DAG: closed sub-terms that occur more than once are bound by
+// define-fun, so that the text stays linear in the number of distinct nodes.
+type sharePrinter struct {
+	count map[*Term]int
+	name  map[*Term]string
+	defs  strings.Builder
+	n     int
+	off   bool
+}
+
+var noShare = os.Getenv("GOVC_NOSHARE") != ""
+
+func newSharePrinter(roots []*Term) *sharePrinter {
+	p := &sharePrinter{count: map[*Term]int{}, name: map[*Term]string{}}
+	var walk func(t *Term)
+	walk = func(t *Term) {
+		p.count[t]++
+		if p.count[t] > 1 {
+			return
+		}
+		for _, a := range t.Args {
+			walk(a)
+		}
+	}
+	for _, r := range roots {
+		walk(r)
+	}
+	// small queries are printed as plain trees: the solvers' quantifier heuristics do measurably better on
+	// them; sharing is for the queries whose tree form would be megabytes
+	memo := map[*Term]int{}
+	var size func(t *Term) int
+	size = func(t *Term) int {
+		if n, ok := memo[t]; ok {
+			return n
+		}
+		n := 1
+		for _, a := range t.Args {
+			n += size(a)
+			if n > 1<<24 {
+				n = 1 << 24
+				break
+			}
+		}
+		memo[t] = n
+		return n
+	}
+	total := 0
+	for _, r := range roots {
+		total += size(r)
+		if total > 1<<24 {
+			break
+		}
+	}
+	p.off = total < shareThreshold
+	return p
+}
+
+// shareThreshold: tree size (nodes) from which a query is printed with shared sub-terms.
+const shareThreshold = 60000
+
+func (p *sharePrinter) shareable(t *Term) bool {
+	if len(t.Args) == 0 || p.count[t] < 2 || noShare || p.off {
+		return false
+	}
+	if t.Op == "forall" || t.Op == "exists" {
+		return !t.HasBVar()
+	}
+	return !t.HasBVar()
+}
+
+// render returns the text of t, emitting definitions for shared sub-terms first.
+func (p *sharePrinter) render(t *Term) string {
+	var sb strings.Builder
+	p.write(&sb, t, true)
+	return sb.String()
+}
+
+func (p *sharePrinter) write(sb *strings.Builder, t *Term, top bool) {
+	if n, ok := p.name[t]; ok {
+		sb.WriteString(n)
+		return
+	}
+	if !top && p.shareable(t) {
+		var body strings.Builder
+		p.writeNode(&body, t)
+		p.n++
+		n := fmt.Sprintf("s!!%d", p.n)
+		p.defs.WriteString("(define-fun " + n + " () " + t.Sort.String() + " " + body.String() + ")\n")
+		p.name[t] = n
+		sb.WriteString(n)
+		return
+	}
+	p.writeNode(sb, t)
+}
+
+func (p *sharePrinter) writeNode(sb *strings.Builder, t *Term) {
+	switch t.Op {
+	case "lit", "true", "false", "var", "bvar":
+		t.write(sb)
+	case "app":
+		sb.WriteByte('(')
+		sb.WriteString(quoteSym(t.Name))
+		for _, a := range t.Args {
+			sb.WriteByte(' ')
+			p.write(sb, a, false)
+		}
+		sb.WriteByte(')')
+	case "forall", "exists":
+		sb.WriteString("(" + t.Op + " (")
+		for i, b := range t.Bound {
+			if i > 0 {
+				sb.WriteByte(' ')
+			}
+			sb.WriteString("(" + quoteSym(b.Name) + " " + b.Sort.String() + ")")
+		}
+		sb.WriteString(") ")
+		p.write(sb, t.Args[0], false)
+		sb.WriteByte(')')
+	default:
+		sb.WriteByte('(')
+		sb.WriteString(t.Op)
+		for _, a := range t.Args {
+			sb.WriteByte(' ')
+			p.write(sb, a, false)
+		}
+		sb.WriteByte(')')
+	}
+}
+
+// flush returns the definitions emitted since the last flush.
+func (p *sharePrinter) flush() string {
+	s := p.defs.String()
+	p.defs.Reset()
+	return s
 }
